@@ -210,7 +210,7 @@ func init() {
 				"StripDuplicates:param#0": 0, "TrimCollinear64:param#0": 12, "startLocsAreClockwise:param#0": 1,
 			}),
 			rulePanics("C03.panics"), ruleMakeSizes("C03.make"), ruleConstIndex("C03.index", map[string]string{
-				"TrimCollinear64:path": "path[0] == path[1] is evaluated only after `l < 2` was false, and l never exceeds len(path) (it starts there and is only decremented), so len(path) >= 2",
+				"TrimCollinear64:param#0": "path[0] == path[1] is evaluated only after `l < 2` was false, and l never exceeds len(path) (it starts there and is only decremented), so len(path) >= 2",
 			}), ruleDivisors("C03.div"), ruleSucceeded("C03.flag"), ruleMonotoneFlag("C03.open-flag", "clipperBase", "hasOpenPaths"), ruleRing("C03.ring", 25, whyRing),
 		},
 	})
